@@ -987,3 +987,82 @@ func VerifC15OpaqueTargets() {
 		vassert(!strings.Contains(rerr.Error(), "panic"), "reported as an ordinary error, not a recovered panic")
 	}
 }
+
+// A promoted source field behind a nil embedded pointer, the predecessor's output being a pointer to the struct: the
+// run reports an ordinary error and leaves the predecessor's output alone (nothing is allocated inside it).
+func VerifC15SourceUntouched() {
+	ctx := context.Background()
+	vcfg("fifo", 1)
+	vcfg("selectfirst", 1)
+	rec := &c15Emb{Y: "y"}
+	wf := NewWorkflow[string, string]()
+	wf.AddLambdaNode("p", InvokableLambda(func(ctx context.Context, in string) (*c15Emb, error) { return rec, nil })).AddInput(START)
+	wf.End().AddInput("p", FromField("BF"))
+	r, err := wf.Compile(ctx)
+	if err != nil {
+		vassert(true, "rejected at compile time")
+		return
+	}
+	var rerr error
+	if vchoose("stream", 2) == 1 {
+		sr, e := r.Stream(ctx, "x")
+		rerr = e
+		if e == nil {
+			_, rerr = sr.Recv()
+			sr.Close()
+		}
+	} else {
+		_, rerr = r.Invoke(ctx, "x")
+	}
+	vassert(rerr != nil, "a promoted source field behind a nil embedded pointer cannot be read: an error")
+	if rerr != nil {
+		vassert(!strings.Contains(rerr.Error(), "panic"), "an ordinary error, not a recovered panic")
+	}
+	vassert(rec.C15Base == nil, "the predecessor's output is not modified")
+}
+
+type c15PSIn struct {
+	A int
+	B string
+}
+
+// A pass-through node with field-mapped inputs and a static value, typed by the node that follows it: a static value
+// of the wrong type is rejected by Compile whatever order the workflow visits its nodes in (or, at the latest, the run
+// fails with an ordinary error); a well-typed one arrives.
+func VerifC15PassthroughStatic() {
+	ctx := context.Background()
+	vcfg("fifo", 1)
+	vcfg("selectfirst", 1)
+	vcfgMapOrderIn("compose.Workflow[")
+	ill := vchoose("ill", 2) == 1
+	var got c15PSIn
+	wf := NewWorkflow[map[string]any, string]()
+	p := wf.AddPassthroughNode("p").AddInput(START, MapFields("x", "A"))
+	if ill {
+		p.SetStaticValue(FieldPath{"B"}, 12)
+	} else {
+		p.SetStaticValue(FieldPath{"B"}, "s")
+	}
+	wf.AddLambdaNode("c", InvokableLambda(func(ctx context.Context, in c15PSIn) (string, error) {
+		got = in
+		return in.B, nil
+	})).AddInput("p")
+	wf.End().AddInput("c")
+	r, err := wf.Compile(ctx)
+	if !ill {
+		vassert(err == nil, "the well-typed workflow compiles")
+	}
+	if err != nil {
+		return
+	}
+	x := vsymInt("x")
+	out, rerr := r.Invoke(ctx, map[string]any{"x": x})
+	if ill {
+		vassert(rerr != nil, "an ill-typed static value that compiled must at least fail the run")
+		if rerr != nil {
+			vassert(!strings.Contains(rerr.Error(), "panic"), "with an ordinary error, not a recovered panic")
+		}
+		return
+	}
+	vassert(rerr == nil && got.A == x && got.B == "s" && out == "s", "mapped and static value reach the successor of the pass-through")
+}
